@@ -169,7 +169,8 @@ CONFIG["C09"] = {
     "explanation": "Contracts on the real _t_and_o_2_positions (1-D and 2-D), FullGrid.get_full_grid_as_array (nested-loop invariants: "
                    "rows below the counter hold (position n div n_b, rotation n mod n_b), frame relative to loop entry), "
                    "get_position_index / get_quaternion_index (all index vectors and the None default) with symbolic n_b, n_o, n_t. "
-                   "Bounded: real grids row by row, index helpers, and the decomposition from_full_array_to_o_b_t (bounded only).",
+                   "Bounded: real grids row by row, index helpers, and the decomposition from_full_array_to_o_b_t (bounded only), incl. direction grids "
+                   "with 42-150 points and radii that are not exact to 8 decimals.",
     "trusted_base": [NUMPY, "assumed callee contracts (C07 post-conditions as stub objects): rotation grid has n_b rows "
                      "(get_N, get_grid_as_array(only_upper=True)), direction grid has n_o rows; TranslationParser.trans_grid "
                      "holds the Angstrom radii (C16)"],
@@ -187,7 +188,8 @@ CONFIG["C02"] = {
                    "matrix alone; FullGrid.get_total_volumes[i n_b + j] = posvol_i f^3 rotvol_j. The triple filter-append loop is "
                    "summarised by the engine (flatten + filter + fill), the block placement by the bmat contract. Bounded: the real "
                    "matrices entrywise against kron(I,O)+c kron(P,I) from the real sub-grid getters, one stored pattern and entry "
-                   "order, strictly positive entries, getter purity incl. get_full_prefactors, both position modes, factors 0.5/2/3.",
+                   "order, strictly positive entries, getter purity incl. get_full_prefactors and caller mutation, the rotation-family distances read "
+                   "independently as the angle between the two rotations (min over sign), both position modes, factors 0.5/2/3.",
     "trusted_base": [NUMPY, SCIPY_SPARSE + "; bmat, coo from triplets (dense view of a duplicate-free triplet list through a lookup ghost "
                      "whose correctness is an obligation)", "engine loop summaries S1-S3 (pyvc/summaries.py) and the filter contract",
                      "ASSUMED callee contracts: position matrices (C05 proved for spherical mode / C06 bounded for Cartesian) and rotation "
